@@ -635,6 +635,10 @@ class Engine:
                     return [Res(st, VBound(v, orig))]
             if self.repo_function(q) is not None:
                 return [Res(st, VBound(v, name))]        # a plain method of the repo class (executed in place when called)
+            inherited = self.inherited_method(v.cls, name)
+            if inherited is not None:
+                # a plain helper defined on a base class of the same module (no contract, no spec): executed in place when called
+                return [Res(st, VBound(v, name))]
             if "." in v.cls and is_repo_module(v.cls.rsplit(".", 1)[0]):
                 # not an instance attribute: a class-level constant of the repo class (e.g. a compiled regular expression)
                 try:
@@ -1005,7 +1009,10 @@ class Engine:
             h = self.R.specs.get("U.is")
             if h:
                 return h(self, st, a, b)
-            return z3.BoolVal(False)
+            # a modelled heap object compared with an opaque value: the opaque value may BE that object (it is stored into opaque containers / attributes as
+            # the constant obj#<ref>, see specs.opaque.box) - identity is equality with that constant, not False
+            o, p = (a, b) if isinstance(a, VObj) else (b, a)
+            return p.e == z3.Const("obj#%d" % o.ref, U)
         if isinstance(a, VClass) and isinstance(b, VClass):
             return self.eq(a, b, st)
         if isinstance(a, VFunc) and isinstance(b, VFunc):
@@ -1396,6 +1403,32 @@ class Engine:
             return False
         return fn is not None and any(isinstance(d, ast.Name) and d.id == "property" for d in fn.decorator_list)
 
+    def inherited_method(self, cls_q, name):
+        """qualified name of the plain (undecorated, uncontracted) function `name` found on a base class of cls_q in the same module, or None"""
+        if "." not in cls_q:
+            return None
+        modq, cname = cls_q.rsplit(".", 1)
+        if not is_repo_module(modq):
+            return None
+        try:
+            mod = Module.load(modq)
+        except Unsupported:
+            return None
+        seen = set()
+        todo = [cname]
+        while todo:
+            c = todo.pop(0)
+            if c in seen or c not in mod.classes:
+                continue
+            seen.add(c)
+            q = "%s.%s.%s" % (modq, c, name)
+            if c != cname and q not in self.R.contracts and q not in self.R.specs and self.repo_function(q) is not None:
+                return q
+            for b in mod.classes[c].bases:
+                if isinstance(b, ast.Name):
+                    todo.append(b.id)
+        return None
+
     def repo_function(self, q):
         """(module, FunctionDef) of a plain repo function / method named q, or None"""
         try:
@@ -1483,6 +1516,11 @@ class Engine:
             r = self.auto_inline(st, q, [recv] + list(args), kwargs)
             if r is not None:
                 return r
+            iq = self.inherited_method(recv.cls, name)
+            if iq is not None:
+                r = self.auto_inline(st, iq, [recv] + list(args), kwargs)
+                if r is not None:
+                    return r
             raise Unsupported("method %s without contract" % q)
         tname = type(recv).__name__
         # an optional argument reaching a method of a typed value is used as that value (the None case is a TypeError path
@@ -1546,6 +1584,10 @@ class Engine:
         self.at_call_site = True        # lets a contract tell a (self-recursive) call site from the verification of its own body
         try:
             return self._apply_contract(st, c, args, kwargs, node)
+        except (AttributeError, KeyError, TypeError, IndexError) as e:
+            # a sidecar hook written for the verification of the callee's own body met a call site it was not written for (e.g. after a refactoring that makes one
+            # function under contract call another): the caller leaves the verified subset - decided by the native harness, never a checker crash
+            raise Unsupported("contract of %s cannot be applied at this call site (%s: %s)" % (c.name, type(e).__name__, e))
         finally:
             self.at_call_site = prev
 
